@@ -1,0 +1,17 @@
+//go:build verif
+
+package bg
+
+import "sync/atomic"
+
+// The task queues are process global and a group's goroutine runs whichever
+// queued function it receives, possibly one of another group. AsyncGroup.Wait
+// therefore says nothing about a single database while several are active; the
+// harness waits for this counter to reach zero instead.
+var verifOutstanding atomic.Int64
+
+func verifTaskQueued()   { verifOutstanding.Add(1) }
+func verifTaskFinished() { verifOutstanding.Add(-1) }
+
+// VerifOutstanding is the number of queued or running tasks of all groups.
+func VerifOutstanding() int64 { return verifOutstanding.Load() }
